@@ -204,12 +204,15 @@ type profile struct {
 
 var allActs = []string{"equivocate", "badparent", "staleqc", "inflate", "dupsigner", "relabel", "subquorum",
 	"wrongblock", "genesisview", "futuretimeout", "badtimeoutsig", "dupvote", "multivote", "zerovote", "unknownvote",
-	"strayvote", "replay", "liefetch", "silent", "staleTC", "swapids", "nosig", "sameview", "aggreplay", "forgevote", "forgetc"}
+	"strayvote", "replay", "liefetch", "silent", "staleTC", "swapids", "nosig", "sameview", "aggreplay", "forgevote", "forgetc", "forgecontrib"}
 
 func profileFor(prop string) profile {
 	pr := profile{byz: 0.6, acts: allActs, faults: 6, leaders: []string{"round-robin", "round-robin", "round-robin", "fixed", "carousel", "reputation", "scripted"}}
 	switch prop {
-	case "C01", "C03", "C07", "C13":
+	case "C13":
+		pr.byz = 0.8
+		pr.acts = []string{"equivocate", "equivocate", "equivocate", "badparent", "sameview", "staleqc", "liefetch", "liefetch", "silent", "replay", "futuretimeout"}
+	case "C01", "C03", "C07":
 	case "C11":
 		pr.byz = 0.9
 		pr.nSwarm = true
@@ -246,6 +249,10 @@ func profileFor(prop string) profile {
 	}
 	return pr
 }
+
+// deepTier reports whether plans are generated for the thorough tier (the tier is part of the plan's identity:
+// thorough seeds are offset, so a replay file never depends on this switch).
+func deepTier() bool { return os.Getenv("VERIF_TIER") == "thorough" }
 
 // GenPlan derives the plan of a W-consensus run from (property, seed).
 func GenPlan(prop string, seed uint64) *Plan {
@@ -296,6 +303,7 @@ func GenPlan(prop string, seed uint64) *Plan {
 			p.Knobs["bf"] = pick(g, 2, 2, 3)
 			p.N = pick(g, 4, 7, 7, 10, 13)
 			p.Leader = "tree-leader"
+			pr.acts = append(append([]string{}, pr.acts...), "forgecontrib", "forgecontrib", "forgecontrib", "forgecontrib", "forgecontrib", "forgecontrib")
 		}
 	}
 	p.Batch = pick(g, 1, 1, 2, 3)
@@ -306,6 +314,19 @@ func GenPlan(prop string, seed uint64) *Plan {
 	p.UntilMs = g.rng(15, 60) * p.ViewDur.Ms
 	p.MaxViews = g.rng(12, 70)
 	p.MaxSteps = 60000
+	if deepTier() {
+		// thorough tier: a third of the plans run longer, with more faults and more injected messages
+		if g.p(0.35) {
+			p.UntilMs *= 3
+			p.MaxViews *= 3
+			p.MaxSteps = 200000
+			pr.faults *= 2
+			pr.inject *= 2
+		}
+		if g.p(0.1) && !pr.nSwarm {
+			p.N = pick(g, 10, 13)
+		}
+	}
 
 	if p.Crypto == "bls12" {
 		// pairings are ~100x slower than Ed25519: keep these runs short
@@ -396,7 +417,15 @@ func GenPlan(prop string, seed uint64) *Plan {
 				p.Faults = append(p.Faults, Fault{AtMs: at, Kind: "slownode", Node: g.rng(1, p.N), ForMs: g.rng(3, 15) * p.ViewDur.Ms,
 					DelayMs: p.ViewDur.Ms * g.rng(5, 15) / 10})
 			case 0:
-				p.Faults = append(p.Faults, Fault{AtMs: at, Kind: "partition", Groups: g.partition(p.N)},
+				groups := g.partition(p.N)
+				for _, b := range p.Byz {
+					// split brain: a twin may sit in another partition than its sibling (listed as the negative id)
+					if b.Kind == "twin" && g.p(0.6) {
+						k := g.intn(len(groups))
+						groups[k] = append(groups[k], -b.ID)
+					}
+				}
+				p.Faults = append(p.Faults, Fault{AtMs: at, Kind: "partition", Groups: groups},
 					Fault{AtMs: at + g.rng(1, 8)*p.ViewDur.Ms, Kind: "heal"})
 			case 1:
 				p.Faults = append(p.Faults, Fault{AtMs: at, Kind: "pause", Node: g.rng(1, p.N), ForMs: g.rng(1, 6) * p.ViewDur.Ms})
@@ -421,6 +450,12 @@ func GenPlan(prop string, seed uint64) *Plan {
 		p.Faults = append(p.Faults,
 			Fault{AtMs: slowAt, Kind: "slownode", Node: victim, ForMs: healAt, DelayMs: p.ViewDur.Ms * g.rng(10, 16) / 10},
 			Fault{AtMs: slowAt + (healAt-slowAt)*g.rng(30, 95)/100, Kind: "crash", Node: victim})
+	}
+	if prop == "C13" && !faultFree {
+		// storing a block again must change nothing: replicas re-store blocks they already hold at seeded instants
+		for i := 0; i < g.rng(2, 12); i++ {
+			p.Faults = append(p.Faults, Fault{AtMs: g.intn(p.UntilMs + 1), Kind: "restore", Node: g.rng(1, p.N), ForMs: g.rng(1, 4)})
+		}
 	}
 	sortFaults(p.Faults)
 
